@@ -367,7 +367,7 @@ def run_property(ctx, spec, t_start):
     def run_job(job):
         flags = list(FAST_FLAGS) if job.get("profile", "fast") == "fast" else []
         flags += job.get("kani_flags", [])
-        cap = job.get("timeout", 600 if tier == "quick" else 3600)
+        cap = job.get("timeout", 1500 if tier == "quick" else 3600)
         mem = job.get("mem_gb", 20 if tier == "quick" else 28)
         if job["role"] == "witness":
             # expected to fail on the WITNESS assertion: ask for the trace values right away
